@@ -103,9 +103,12 @@ def rand_frags(rng, approx_len=600):
 
 
 def rand_remote_ids(rng, n=6):
-    mode = rng.choice(["seq", "same", "big", "random", "mixed"])
+    mode = rng.choice(["seq", "same", "big", "random", "mixed", "zero"])
     if mode == "seq":
         return []
+    if mode == "zero":
+        # out of protocol (protocol.txt: neither id of a READY may be zero) but handled by the library: a device whose own stream id is 0
+        return [rng.choice([0, 0, "same", rng.randrange(1, 2 ** 32)]) for _ in range(n)]
     if mode == "same":
         return ["same"] * n
     if mode == "big":
